@@ -704,7 +704,7 @@ def oracle_cases(ctx, deep):
     # evaluated on every run so that the KNOWN-FINDING line is always printed
     cases.append({'decoder': 'UnionFindDecoder', 'code': 'Toric2DCode', 'size': [2, 2],
                   'direction': [0.25, 0.25, 0.5], 'p': 0.125, 'errors': [[[0], []]], 'kind': 'corpus-D15'})
-    # corpus: smallest witness of known finding D16 (XCube matching on a lattice that is not Lx <= Ly <= Lz)
+    # corpus: witness of the former defect D16 (XCube matching on a lattice that is not Lx <= Ly <= Lz), fixed 869642d
     cases.append({'decoder': 'XCubeMatchingDecoder', 'code': 'XCubeCode', 'size': [3, 2, 2],
                   'direction': [0.25, 0.25, 0.5], 'p': 0.125, 'errors': [[[0], []]], 'kind': 'corpus-D16'})
     # exhaustive syndromes on tiny codes: one representative error per syndrome
